@@ -216,7 +216,7 @@ class ServerAction():
     def remove(cls, server, action):
         '''Remove a function for the specified server.'''
         if server in cls._servers:
-            cls._servers[server].get(action, None)  # discard
+            cls._servers[server].pop(action, None)  # discard
 
     @classmethod
     def remove_server(cls, server):
